@@ -12,6 +12,7 @@ import (
 	"verif/internal/bridge"
 	"verif/internal/gen"
 	m "verif/internal/model"
+	"verif/internal/ref"
 	"verif/internal/wire"
 )
 
@@ -127,4 +128,77 @@ func encodeBlocks(blocks []m.Block) [][]byte {
 		out = append(out, in.Block(b.Postfix()).Encode())
 	}
 	return out
+}
+
+// forkAndRecheck derives two siblings from stage k (Append of the same content
+// twice) and checks that every token produced so far, and both siblings, are
+// still exactly what they were: same bytes, accepted under the root, chain
+// verifying per the reference, last block decoding to the appended content.
+func forkAndRecheck(stages []*biscuit.Biscuit, pub ed25519.PublicKey, rngKey uint64, extra m.Block, k int) string {
+	if len(stages) == 0 {
+		return ""
+	}
+	parent := stages[k%len(stages)]
+	if parent.BlockCount()+1 != len(parent.RevocationIds()) {
+		return "revocation id count"
+	}
+	before := make([][]byte, len(stages))
+	for i, st := range stages {
+		b, err := st.Serialize()
+		if err != nil {
+			return fmt.Sprintf("stage %d does not serialize: %v", i, err)
+		}
+		before[i] = b
+	}
+	rng := bridge.NewDetRand(rngKey)
+	c1, err := bridge.AppendBlock(parent, rng, extra)
+	if err != nil {
+		// a sealed parent refuses: nothing to fork
+		return ""
+	}
+	c1ser, err := c1.Serialize()
+	if err != nil {
+		return fmt.Sprintf("first sibling does not serialize: %v", err)
+	}
+	c2, err := bridge.AppendBlock(parent, rng, extra)
+	if err != nil {
+		return fmt.Sprintf("second Append on the same parent failed: %v", err)
+	}
+	c2ser, err := c2.Serialize()
+	if err != nil {
+		return fmt.Sprintf("second sibling does not serialize: %v", err)
+	}
+	again, _ := c1.Serialize()
+	if string(again) != string(c1ser) {
+		return fmt.Sprintf("the first token appended to stage %d (a parent with %d later blocks) serializes differently after a second token was appended to the same parent", k%len(stages), parent.BlockCount())
+	}
+	for i, st := range stages {
+		b, _ := st.Serialize()
+		if string(b) != string(before[i]) {
+			return fmt.Sprintf("stage %d serializes differently after two tokens were derived from stage %d", i, k%len(stages))
+		}
+	}
+	for name, ser := range map[string][]byte{"first": c1ser, "second": c2ser} {
+		if ok, _, _, detail, pan := libAccepts(ser, pub); pan != nil || !ok {
+			return fmt.Sprintf("%s sibling appended to stage %d is not accepted under its root: %s %v", name, k%len(stages), detail, pan)
+		}
+	}
+	for name, tk := range map[string]*biscuit.Biscuit{"first": c1, "second": c2} {
+		ser, _ := tk.Serialize()
+		if r := ref.VerifyChain(ser, pub); !r.OK {
+			return fmt.Sprintf("%s sibling appended to stage %d does not verify per the reference: %s", name, k%len(stages), r.Reason)
+		}
+		_, blocks, err := decodeContent(ser)
+		if err != nil {
+			return fmt.Sprintf("%s sibling: independent decoding: %v", name, err)
+		}
+		if got, want := blocks[len(blocks)-1].ContentKey(), extra.Postfix().ContentKey(); got != want {
+			return fmt.Sprintf("%s sibling appended to stage %d: last block decodes to %s, supplied %s", name, k%len(stages), got, want)
+		}
+	}
+	r1, r2 := c1.RevocationIds(), c2.RevocationIds()
+	if len(r1) != len(r2) || len(r1) == 0 || string(r1[len(r1)-1]) == string(r2[len(r2)-1]) {
+		return "siblings share their last revocation identifier"
+	}
+	return ""
 }
